@@ -53,6 +53,9 @@ type result struct {
 	Term   string `json:"term"` // Coq term of the decoded value (out == ok)
 	Tag    string `json:"tag"`  // sub-class of the decoded value, part of the violation kind (before .use)
 	Sub    string `json:"sub"`  // sub-class of the decoded value, part of the violation kind (after .use.)
+	NV     int64  `json:"nv"`   // Polygon: the decoded numVertices field
+	HasNV  bool   `json:"hasnv"`
+	Note   string `json:"note"` // non-fatal finding of the use phase (re-encoding does not decode)
 	Use    string `json:"use"`  // ok | panic
 	UseAt  string `json:"useAt"`
 	UseMsg string `json:"useMsg"`
@@ -280,7 +283,37 @@ func regressionInputs() []input {
 	offc := func(idx uint64) []byte {
 		return cat([]byte{4, 0}, uv(1), uv(3), uv(3*6+0), uv(0), uv(0), uv(1), uv(idx), make([]byte, 24), uv(0), uv(0))
 	}
+	encLoop := func(l *s2.Loop) []byte {
+		b, _ := cg.Enc(func(w *bytes.Buffer) error { return l.Encode(w) })
+		return b
+	}
+	encRect := func(r s2.Rect) []byte {
+		b, _ := cg.Enc(func(w *bytes.Buffer) error { return r.Encode(w) })
+		return b
+	}
+	u32 := func(n uint32) []byte {
+		var t [4]byte
+		binary.LittleEndian.PutUint32(t[:], n)
+		return t[:]
+	}
+	// lossless (version 1) polygons the Go encoder itself never writes (it uses the compressed
+	// format for them) but other implementations and hand-written inputs do
+	lossless := func(hasHoles byte, bound s2.Rect, loops ...*s2.Loop) []byte {
+		b := cat([]byte{1, 1, hasHoles}, u32(uint32(len(loops))))
+		for _, l := range loops {
+			b = append(b, encLoop(l)...)
+		}
+		return append(b, encRect(bound)...)
+	}
+	tri := s2.LoopFromPoints([]s2.Point{s2.PointFromCoords(1, 0, 0), s2.PointFromCoords(0, 1, 0), s2.PointFromCoords(0, 0, 1)})
 	return []input{
+		{cg.KPolygon, lossless(0, s2.EmptyRect()), "lossless: empty polygon (no loops)", false},
+		{cg.KPolygon, lossless(0, s2.FullRect(), s2.FullLoop()), "lossless: full polygon", false},
+		{cg.KPolygon, lossless(0, s2.EmptyRect(), s2.EmptyLoop()), "lossless: polygon with the empty loop", false},
+		{cg.KPolygon, lossless(0, s2.FullRect(), s2.FullLoop(), s2.EmptyLoop()), "lossless: full and empty loop", false},
+		{cg.KPolygon, lossless(1, tri.RectBound(), tri, s2.EmptyLoop()), "lossless: triangle and empty loop", false},
+		{cg.KPolygon, lossless(0, tri.RectBound(), s2.FullLoop(), tri), "lossless: full loop and triangle", false},
+		{cg.KPolygon, lossless(0, tri.RectBound(), tri), "lossless: triangle", false},
 		{cg.KPolygon, []byte{4, 30, 1, 4}, "face runs: input ends before the face-run table", false},
 		{cg.KPolygon, []byte{4, 30, 1, 4, 12}, "face runs: input ends inside the face-run table", false},
 		{cg.KPolygon, []byte{4, 30, 1, 4, 0}, "face runs: run with count 0", false},
@@ -540,6 +573,14 @@ func run(c *vkit.Collector, rng *vkit.Rng, budget int) {
 		switch r.Out {
 		case "ok":
 			c.Check(kn+" ok "+inp.Label, vkit.App("result_eqb "+eq, vkit.App(fn, bt), vkit.App("Ok", cg.InZ(r.Term))))
+			if r.HasNV {
+				// the cached vertex count the encoder's format choice relies on
+				c.Check(kn+" numVertices "+inp.Label, vkit.App("Z.eqb", vkit.App("dpolygon_num_vertices", cg.InZ(r.Term)), vkit.Z(r.NV)))
+			}
+			if r.Note != "" {
+				rep["detail"] = r.Note
+				c.Violate(kn+r.Tag+".use.Encode.undecodable", r.Note, rep)
+			}
 			if r.Use != "ok" {
 				rep["query"] = r.UseAt
 				rep["detail"] = tail(r.UseMsg, 300)
